@@ -34,6 +34,9 @@ class GCfg:
     setup: bool = False
     reconf: bool = True
     activation: bool = False
+    rebuild: bool = False
+    indexed: bool = False
+    combined: bool = False
 
 
 def _edges(c: Ctx, names: List[str]) -> Dict[str, List[str]]:
@@ -86,6 +89,21 @@ def run_c07(cfg: GCfg, c: Ctx) -> Any:
 
     want = cp_def(prio)
     check_table(d.graph_ids.compound_priority, want, names, "after construction")
+    if cfg.rebuild:
+        # the same nodes handed to the DAG constructor in another insertion order (as compose() and users of the
+        # class API do), and a DAG derived with compose(): the table must not depend on insertion order
+        from tawazi import DAG
+        from tawazi._helpers import StrictDict
+
+        order = perms(N)[c.choose(math.factorial(N), "insertion")]
+        user = [names[i] for i in order]
+        ids_sorted = [i for i in d.exec_nodes if i not in names] + user
+        table = StrictDict((i, d.exec_nodes[i]) for i in ids_sorted)
+        d2 = DAG(qualname="rebuilt", results=StrictDict(d.results), exec_nodes=table, input_uxns=list(d.input_uxns), return_uxns=d.return_uxns)
+        check_table(d2.graph_ids.compound_priority, want, names, "of a DAG built from the node table in insertion order %s" % user)
+        d3 = d.compose("composed", [], [xns[n] for n in names if not desc[n]])
+        check_table(d3.graph_ids.compound_priority, want, [n for n in names if n in d3.exec_nodes], "of the DAG derived with compose()")
+        c.cover("w_rebuilt")
     # reconfiguration: all nodes or one node get fresh priorities
     k = c.choose(N + 2, "reconf") if cfg.reconf else 0
     cur = dict(prio)
@@ -124,17 +142,19 @@ def run_c07(cfg: GCfg, c: Ctx) -> Any:
 
 
 # ------------------------------------------------------------------------------------------------ C12
-MEMBER_OPTS_CACHE: Dict[Tuple[int, str], List[Any]] = {}
+MEMBER_OPTS_CACHE: Dict[Tuple[int, str, bool], List[Any]] = {}
+PAIRS_EVERYWHERE = [False]  # thorough tier: two-element lists for root_nodes / exclude_nodes as well
 
 
 def member_options(N: int, role: str) -> List[Any]:
     """None (not given), [] , singletons, pairs, the shared tag 'g', and (targets only) an unknown alias."""
-    key = (N, role)
+    key = (N, role, PAIRS_EVERYWHERE[0])
     if key not in MEMBER_OPTS_CACHE:
         labels = ["n%d" % i for i in range(N)]
         opts: List[Any] = [None, []]
         opts += [[a] for a in labels]
-        opts += [[labels[i], labels[j]] for i in range(N) for j in range(i + 1, N)]
+        if role == "T" or PAIRS_EVERYWHERE[0]:
+            opts += [[labels[i], labels[j]] for i in range(N) for j in range(i + 1, N)]
         opts.append(["@g"])
         if role == "T":
             opts.append(["@zz"])
@@ -147,31 +167,54 @@ def run_c12(cfg: GCfg, c: Ctx) -> Any:
     from tawazi import Resource, dag, xn
 
     N = cfg.N
+    PAIRS_EVERYWHERE[0] = cfg.combined
     labels = ["n%d" % i for i in range(N)]
     deps = _edges(c, labels)
     desc, anc = closure(labels, deps)
     const_arg = {l: (not deps[l] and bool(c.choose(2, "const"))) for l in labels}
-    clash = bool(c.choose(2, "tagclash"))  # the last node is tagged with the id of the first one
-    tags: Dict[str, Tuple[str, ...]] = {}
+    # one naming feature per program: alias form (reference / id / tag) x tag style - 0 tuples of tags; 1 as 0 but the
+    # last node is also tagged with the id of the first one; 2 single-string tags, the last node's tag contains the id
+    # of the first node and the tag of the second as substrings - or an indexed dependency (with reference aliases)
+    feats = [("ref", 0, False), ("id", 0, False), ("tag", 0, False), ("id", 1, False), ("id", 2, False), ("tag", 2, False)]
+    if cfg.indexed:
+        feats.append(("ref", 0, True))
+    form, style, want_idx = feats[c.choose(len(feats), "naming")]
+    clash = style == 1
+    tags: Dict[str, Any] = {}
     for i, l in enumerate(labels):
+        if style == 2:
+            tags[l] = "t%d" % i if i < N - 1 else "x%s_t1y" % labels[0]
+            continue
         t = ["t%d" % i]
         if i < 2:
             t.append("g")
         if clash and i == N - 1:
             t.append(labels[0])
         tags[l] = tuple(t)
-    form = ("ref", "id", "tag")[c.choose(3, "alias")]
+    idx_dep: Optional[Tuple[str, str]] = None
+    if want_idx:
+        pairs = [(dd, l) for l in labels for dd in deps[l]]
+        c.assume(bool(pairs))
+        idx_dep = pairs[c.choose(len(pairs), "idx")]
     setup0 = bool(cfg.setup and not deps[labels[0]] and c.choose(2, "setup"))
     cnt = Counter()
     xns = {l: xn(term_fn(l, cnt), tag=tags[l], setup=(setup0 and l == labels[0]), resource=Resource.main_thread) for l in labels}
 
     def call_args(l: str, r: Dict[str, Any]) -> List[Any]:
-        return ([7] if const_arg[l] else []) + [r[d] for d in deps[l]]
+        out: List[Any] = [7] if const_arg[l] else []
+        for dd in deps[l]:
+            v = r[dd]
+            if idx_dep == (dd, l):
+                v = v[0] if v is not None else None  # an unexecuted node reads as None, indexed or not
+            out.append(v)
+        return out
 
     def pipe() -> Any:
         r: Dict[str, Any] = {}
         for l in labels:
             r[l] = xns[l](*call_args(l, r))
+        if cfg.indexed:
+            return tuple(r[l] for l in labels) + (r[labels[-1]][0],)
         return tuple(r[l] for l in labels)
 
     d = dag(pipe)
@@ -180,13 +223,15 @@ def run_c12(cfg: GCfg, c: Ctx) -> Any:
     def resolve(m: str) -> Optional[Set[str]]:
         """Documented alias resolution: reference -> that node; string -> nodes carrying it as tag, else the id."""
         if m == "@g":
+            if style == 2:
+                return None  # no node carries the tag "g" in this style
             return {labels[0], labels[1]} if N >= 2 else {labels[0]}
         if m == "@zz":
             return None
         if form == "ref":
             return {m}
-        s = m if form == "id" else "t%d" % labels.index(m)
-        tagged = {l for l in labels if s in tags[l]}
+        s = m if form == "id" else (tags[m] if style == 2 else "t%d" % labels.index(m))
+        tagged = {l for l in labels if (s == tags[l] if style == 2 else s in tags[l])}
         return tagged or ({s} if s in labels else None)
 
     def alias(m: str) -> Any:
@@ -196,7 +241,7 @@ def run_c12(cfg: GCfg, c: Ctx) -> Any:
             return "zz"
         if form == "ref":
             return xns[m]
-        return m if form == "id" else "t%d" % labels.index(m)
+        return m if form == "id" else (tags[m] if style == 2 else "t%d" % labels.index(m))
 
     chosen: Dict[str, Any] = {}
     sets: Dict[str, Optional[Set[str]]] = {}
@@ -273,7 +318,11 @@ def run_c12(cfg: GCfg, c: Ctx) -> Any:
     want_run = expected - pre_done
     c.check(cnt.entered() == want_run and all(v == 1 for v in cnt.n.values()),
             "executed nodes %s differ from the documented closure %s" % (dict(cnt.n), sorted(want_run)), prop="C12", data=data)
-    c.check(veq(out, tuple(ref[l] for l in labels)), "returned values differ: real values for executed / computed nodes, None otherwise",
+    want_out = tuple(ref[l] for l in labels)
+    if cfg.indexed:
+        last = ref[labels[-1]]
+        want_out = want_out + ((last[0] if last is not None else None),)
+    c.check(veq(out, want_out), "returned values differ: real values for executed / computed nodes, None otherwise",
             prop="C12", data={**data, "got": out})
     c.cover("states", hash((tuple(tuple(deps[l]) for l in labels), repr(chosen), form, tuple(const_arg.values()))))
     if expected and expected != set(labels):
@@ -336,6 +385,8 @@ def run_c13(cfg: GCfg, c: Ctx) -> Any:
     c.check(built, "valid debug placement rejected", prop="C13", data=data)
     run_dbg = bool(c.choose(2, "run_debug"))
     modes = ["call"] + [(k, l) for k in ("target", "exclude", "root") for l in labels] + (["setup"] if setup0 else [])
+    if cfg.combined:
+        modes += [(k, a, b) for k in ("root+target", "root+exclude") for a in labels for b in labels if a != b]
     mode = modes[c.choose(len(modes), "mode")]
     data.update(run_debug=run_dbg, mode=mode)
     saved = twz_cfg.RUN_DEBUG_NODES
@@ -349,6 +400,21 @@ def run_c13(cfg: GCfg, c: Ctx) -> Any:
         elif mode == "setup":
             d.setup()
             sel_all = {labels[0]}
+        elif len(mode) == 3:
+            kind, a, b = mode
+            c.assume(not alldeps[a])  # a is a root
+            after_r = selection_spec(labels, alldeps, {a}, None, None)
+            c.assume(b in after_r)  # the excluded / targeted node lies inside the part selected by the root
+            if kind == "root+target":
+                kwsel = {"root_nodes": [a], "target_nodes": [b]}
+                sel_all = selection_spec(labels, alldeps, {a}, None, {b})
+            else:
+                kwsel = {"root_nodes": [a], "exclude_nodes": [b]}
+                sel_all = selection_spec(labels, alldeps, {a}, {b}, None)
+            ex = d.executor(**kwsel)
+            graph_nodes = set(ex.graph.nodes)
+            out = ex()
+            c.cover("w_combined_selection")
         else:
             kind, x = mode
             if kind == "root":
